@@ -220,7 +220,13 @@ impl Interval {
         } else {
             // The interval either contains both -1 and 0 or wraps around
             if let Ok(start) = self.start.try_to_i128() {
-                let stride = 1 << self.stride.trailing_zeros();
+                // The adjustment to stride and remainder below is only implemented for sizes up to 8 bytes.
+                // For larger sizes the stride information gets lost.
+                let stride = if width > ByteSize::new(8) {
+                    1
+                } else {
+                    1 << self.stride.trailing_zeros()
+                };
                 let remainder = (start % stride + stride) % stride;
                 Interval {
                     start: Bitvector::zero(width.into()),
